@@ -220,11 +220,21 @@ def r_lookup_algorithm(r, prog):
             r.finding('scope-walk', f.span, 'the scope walk does not return on a hit and pop exactly on a miss')
     else:
         r.finding('scope-walk-missing', f.span, 'find_node_with_scope has no get/pop scope walk')
+    # no other way to a node: every table lookup of this function is one of the three above
+    allget = [c for c in f.calls() if c.name() in ('get', 'get_key_value', 'contains_key', 'index', 'entry', 'find_node', 'find_element') and not f.blocks[c.bb].get('cleanup')
+              and ('lookup_table' in vexpr(f, c.args[0]) or c.name() in ('find_node', 'find_element'))]
+    extra = [c for c in allget if not ((c.name() == 'get' and c.bb in body) or c in g or c in plain)]
+    if extra:
+        for c in extra:
+            r.finding('lookup-outside-scope-walk', c.span, 'find_node_with_scope looks a name up with %s(%s) outside the scope walk: such a shortcut can return a node that the innermost-scope-first search would not have chosen' % (
+                c.name(), ', '.join(vexpr(f, a)[:40] for a in c.args[1:])))
+    else:
+        r.ok('the only table lookups are the "::" lookup, the scope walk and the final global lookup (%d sites)' % len(allget))
     if plain and plain[0].bb not in body and f.dominates(head, plain[0].bb):
         r.ok('the global scope is searched last, after all enclosing scopes')
     else:
         r.finding('global-scope-not-last', f.span, 'the global lookup is not the last step of find_node_with_scope')
-    r.floor(4)
+    r.floor(5)
 
 
 def r_name_table_single_writer(r, prog):
